@@ -120,6 +120,10 @@ func (m *UnsubscribeMessage) Decode(src []byte) (int, error) {
 		return total, err
 	}
 
+	if m.remlen < 2 {
+		return total, fmt.Errorf("unsubscribe/Decode: Insufficient remaining length for the packet ID")
+	}
+
 	//this.packetId = binary.BigEndian.Uint16(src[total:])
 	m.packetID = src[total : total+2]
 	total += 2
@@ -132,8 +136,12 @@ func (m *UnsubscribeMessage) Decode(src []byte) (int, error) {
 			return total, err
 		}
 
+		if n > remlen {
+			return total, fmt.Errorf("unsubscribe/Decode: Topic filter exceeds the remaining length")
+		}
+
 		m.topics = append(m.topics, t)
-		remlen = remlen - n - 1
+		remlen = remlen - n
 	}
 
 	if len(m.topics) == 0 {
